@@ -22,6 +22,7 @@ func init() {
 	core.RegisterJudge("C10", "walk-spec", judgeC10Spec)
 	core.RegisterJudge("C10", "walk-src", judgeC10Src)
 	core.RegisterJudge("C10", "patch-e2e", judgeC10Patch)
+	core.RegisterJudge("C10", "enter-rewrite", judgeC10Rewrite)
 }
 
 var nodeIface = reflect.TypeOf((*ast.Node)(nil)).Elem()
@@ -306,6 +307,65 @@ func (s *c10Spec) kinds(m map[string]bool) {
 	}
 }
 
+// enter-rewrite: a top-down visitor that replaces, in Enter, every PropertyNode{Node: x} by a FunctionNode with
+// x as its argument. The walk has to continue in the children of the NEW node: afterwards no PropertyNode is
+// left at any depth and the tree equals the pure recursive transformation of the spec.
+type c10EnterRewriter struct{}
+
+func (c10EnterRewriter) Enter(n *ast.Node) {
+	if p, ok := (*n).(*ast.PropertyNode); ok {
+		ast.Patch(n, &ast.FunctionNode{Arguments: []ast.Node{p.Node}})
+	}
+}
+func (c10EnterRewriter) Exit(*ast.Node) {}
+
+func (s *c10Spec) rewritten() *c10Spec {
+	if s == nil || s.K == "" {
+		return s
+	}
+	if s.K == "PropertyNode" {
+		out := &c10Spec{K: "FunctionNode"}
+		if len(s.N) > 0 && s.N[0] != nil && s.N[0].K != "" {
+			out.L = []*c10Spec{s.N[0].rewritten()}
+		} else {
+			out.L = []*c10Spec{nil}
+		}
+		return out
+	}
+	out := &c10Spec{K: s.K, V: s.V}
+	for _, k := range s.N {
+		out.N = append(out.N, k.rewritten())
+	}
+	for _, k := range s.L {
+		out.L = append(out.L, k.rewritten())
+	}
+	return out
+}
+
+func judgeC10Rewrite(c *core.Case, cfg *core.Config) core.Verdict {
+	var spec c10Spec
+	if err := json.Unmarshal(c.Raw, &spec); err != nil {
+		return core.Verdict{Violation: "bad replay file: " + err.Error()}
+	}
+	v := core.Verdict{Key: string(c.Raw)}
+	root := spec.build()
+	c.Source = c10Dump(root)
+	if err := c10WalkSafe(&root, c10EnterRewriter{}); err != nil {
+		v.Violation = err.Error()
+		return v
+	}
+	got := c10Dump(root)
+	want := c10Dump(spec.rewritten().build())
+	if got != want {
+		v.Violation = fmt.Sprintf("a visitor replacing every property access by a call in Enter, on %s\n  expected tree: %s\n  tree after walk: %s", c.Source, want, got)
+		return v
+	}
+	n := strings.Count(c.Source, "Property(")
+	v.Classes = append(v.Classes, fmt.Sprintf("enter-rewrite:%d-property-nodes", bucket(n)))
+	v.NonTriv = n >= 2
+	return v
+}
+
 type c10Replacer struct {
 	onEnter bool
 	chosen  map[int]bool
@@ -433,10 +493,17 @@ func judgeC10Src(c *core.Case, cfg *core.Config) core.Verdict {
 	return v
 }
 
-type patch41 struct{ retype bool }
+type patch41 struct{ retype, repair bool }
 
 func (patch41) Enter(*ast.Node) {}
 func (p patch41) Exit(n *ast.Node) {
+	if p.repair {
+		// a patch that repairs an expression which does not type-check before it ran (unknown name -> literal)
+		if id, ok := (*n).(*ast.IdentifierNode); ok && id.Value == "Zz41" {
+			ast.Patch(n, &ast.IntegerNode{Value: 42})
+		}
+		return
+	}
 	if i, ok := (*n).(*ast.IntegerNode); ok && i.Value == 41 {
 		if p.retype {
 			// a patch that changes the node's type: the tree must be checked again, not compiled with stale types
@@ -464,7 +531,7 @@ func judgeC10Patch(c *core.Case, cfg *core.Config) core.Verdict {
 			return
 		}
 		if n.K == "lit" && n.Ty.K == core.KInt && n.I == 41 && n.S == "" {
-			if c.Bool("retype") {
+			if c.Bool("retype") && !c.Bool("repair") {
 				n.Ty, n.F, n.I = core.TF64, 41.5, 0
 			} else {
 				n.I = 42
@@ -499,11 +566,26 @@ func judgeC10Patch(c *core.Case, cfg *core.Config) core.Verdict {
 		return v
 	}
 	src42 := (&core.Printer{Parens: core.ParenFull}).Print(x42)
-	src41 := (&core.Printer{Parens: core.ParenFull}).Print(x)
+	x41 := x
+	if c.Bool("repair") {
+		x41 = x.Clone()
+		x41.Walk(func(n *core.X) {
+			if n.K == "lit" && n.Ty.K == core.KInt && n.I == 41 && n.S == "" {
+				*n = *core.Var("Zz41", core.TInt)
+			}
+		})
+	}
+	src41 := (&core.Printer{Parens: core.ParenFull}).Print(x41)
 	c.Source = src41
 	opt := c.Bool("opt")
-	pa, erra := compile(src41, expr.Env(core.Env{}), expr.Optimize(opt), expr.Patch(patch41{retype: c.Bool("retype")}))
-	pb, errb := compile(src42, expr.Env(core.Env{}), expr.Optimize(opt))
+	common := []expr.Option{expr.Env(core.Env{}), expr.Optimize(opt)}
+	if c.Bool("ops") {
+		// operator overloads on built-in types: patching of operators must happen whether or not the first type
+		// check succeeded
+		common = append(common, expr.Operator("+", "JoinSp"), expr.Operator("-", "SubF"))
+	}
+	pa, erra := compile(src41, append(append([]expr.Option{}, common...), expr.Patch(patch41{retype: c.Bool("retype") && !c.Bool("repair"), repair: c.Bool("repair")}))...)
+	pb, errb := compile(src42, common...)
 	if (erra == nil) != (errb == nil) {
 		v.Violation = fmt.Sprintf("%q with Patch(41->42) compiles: %v; %q compiles: %v", src41, errStr(erra), src42, errStr(errb))
 		return v
@@ -522,8 +604,14 @@ func judgeC10Patch(c *core.Case, cfg *core.Config) core.Verdict {
 	for w := range where {
 		v.Classes = append(v.Classes, "patched-in:"+w)
 	}
-	if c.Bool("retype") {
+	if c.Bool("retype") && !c.Bool("repair") {
 		v.Classes = append(v.Classes, "type-changing-patch")
+	}
+	if c.Bool("repair") {
+		v.Classes = append(v.Classes, "repairing-patch(first check fails)")
+	}
+	if c.Bool("ops") {
+		v.Classes = append(v.Classes, "with-operator-overloads")
 	}
 	v.NonTriv = true
 	return v
@@ -663,6 +751,34 @@ func TestC10(t *testing.T) {
 	if !ok {
 		return
 	}
+	if !core.RunRapid(t, rec, "enter-rewrite", cfg.N(8000, 200000), func(rt *rapid.T) *core.Case {
+		s := genC10Spec(rt, rapid.IntRange(1, 5).Draw(rt, "depth"))
+		// make sure chains of property accesses occur: wrap a random sub-tree in 1-4 PropertyNodes
+		wrap := func(x *c10Spec, k int) *c10Spec {
+			for i := 0; i < k; i++ {
+				x = &c10Spec{K: "PropertyNode", N: []*c10Spec{x}, V: i}
+			}
+			return x
+		}
+		k := rapid.IntRange(1, 4).Draw(rt, "chain")
+		if len(s.N) > 0 && rapid.Bool().Draw(rt, "inner") {
+			i := rapid.IntRange(0, len(s.N)-1).Draw(rt, "slot")
+			if s.N[i] != nil && s.N[i].K != "" {
+				s.N[i] = wrap(s.N[i], k)
+			}
+		} else {
+			s = wrap(s, k)
+		}
+		raw, err := json.Marshal(s)
+		if err != nil {
+			panic(err)
+		}
+		c := pcase("C10", "enter-rewrite")
+		c.Raw = raw
+		return c
+	}) {
+		return
+	}
 	core.RunRapid(t, rec, "patch", cfg.N(15000, 300000), func(rt *rapid.T) *core.Case {
 		spec := core.GenEnvSpec(rt, "", 4)
 		g := core.NewGen(rt, spec, rapid.IntRange(5, 40).Draw(rt, "fuel"), cfg.Excl)
@@ -691,6 +807,11 @@ func TestC10(t *testing.T) {
 		c.Source = x.FullSrc()
 		c.P["opt"] = rapid.Bool().Draw(rt, "opt")
 		c.P["retype"] = rapid.Bool().Draw(rt, "retype")
+		c.P["repair"] = rapid.IntRange(0, 2).Draw(rt, "repair") == 0
+		// operator overloads are resolved on the tree as typed BEFORE user visitors run (documented pipeline order):
+		// a visitor that changes an operand's type is outside what the differential may assume, so overloads are
+		// only combined with type-preserving and repairing patches
+		c.P["ops"] = rapid.Bool().Draw(rt, "ops") && !(c.Bool("retype") && !c.Bool("repair"))
 		return c
 	})
 }
